@@ -1876,6 +1876,16 @@ Proof. vm_compute. split; reflexivity. Qed.
 
 (** * O. Replays of the crate's unit tests (data_block/mod.rs) and instances *)
 
+Definition oentry_eqb (a b : option entry) : bool :=
+  match a, b with Some x, Some y => entry_eqb x y | None, None => true | _, _ => false end.
+
+Fixpoint olist_eqb (a b : list (option entry)) : bool :=
+  match a, b with
+  | [], [] => true
+  | x :: a', y :: b' => oentry_eqb x y && olist_eqb a' b'
+  | _, _ => false
+  end.
+
 (** a stand-in hash; the theorems hold for every hash function *)
 Definition toy_hash (k : key) : N := fold_left (fun a b => (a * 31 + b) mod 2 ^ 64) k 7.
 Definition SEQNO_MAX : N := 2 ^ 64 - 1.
@@ -1888,7 +1898,7 @@ Definition s_yyy : key := [121;121;121].
 Example data_block_point_read_one :
   let items := [mkE s_pla_earth_fact 0 Value s_earth] in
   let B := encode_block toy_hash 16 0 items in
-  block_len B = Some 1 /\ length B = 63%nat /\
+  block_len B = Some 1 /\ length B = 65%nat /\
   point_read toy_hash B s_pla_earth_fact SEQNO_MAX = Some (mkE s_pla_earth_fact 0 Value s_earth) /\
   point_read_res toy_hash B s_yyy SEQNO_MAX = Some None /\
   decode_all B = Some items.
@@ -1975,17 +1985,18 @@ Example hash_index_tests :
   hash_get toy_hash [5] [98] = 5.
 Proof. vm_compute. repeat split. Qed.
 
-(** all three paths of [point_read] in one block: a FREE bucket, a CONFLICT bucket and a
-    pointer bucket all occur (4 buckets, 3 restart intervals) *)
+(** all three paths of [point_read]: with 3 buckets the index holds CONFLICT and pointer
+    entries, with 6 buckets also a FREE one (key 102 hashes there: absent without a scan) *)
 Example point_read_three_paths :
   let items := [mkE [97] 9 Value [1]; mkE [97] 4 Value [2]; mkE [98] 7 Tomb []; mkE [99] 1 Value [3];
                 mkE [100] 2 Value [4]; mkE [101] 3 Value [5]] in
-  let B := encode_block toy_hash 2 4 items in
-  get_hash_index_reader B = Some (Some [255; 254; 2; 0]) /\
-  map (fun k => hash_get toy_hash [255; 254; 2; 0] [k]) [97; 98; 99; 100; 101; 102]
-    = [0; 255; 255; 255; 2; 254] /\
-  map (fun k => point_read toy_hash B [k] 8) [97; 98; 99; 100; 101; 102]
-    = map (fun k => newest [k] 8 items) [97; 98; 99; 100; 101; 102].
+  let probes := [97; 98; 99; 100; 101; 102; 103; 104] in
+  get_hash_index_reader (encode_block toy_hash 2 3 items) = Some (Some [255; 1; 255]) /\
+  get_hash_index_reader (encode_block toy_hash 2 6 items) = Some (Some [2; 254; 0; 1; 1; 2]) /\
+  hash_get toy_hash [2; 254; 0; 1; 1; 2] [102] = MARKER_FREE /\
+  forallb (fun nb =>
+    forallb (fun k => oentry_eqb (point_read toy_hash (encode_block toy_hash 2 nb items) [k] 8)
+                                 (newest [k] 8 items)) probes) [0; 3; 6] = true.
 Proof. vm_compute. repeat split. Qed.
 
 (** instances of the main theorems' hypotheses *)
@@ -2024,16 +2035,6 @@ Fixpoint all_codes (n : nat) : list (list bool) :=
 Fixpoint mk_items (n : nat) : list entry :=
   match n with O => [] | S n' => mk_items n' ++ [mkE [97; N.of_nat n'] 0 Value [N.of_nat n']] end.
 
-Definition oentry_eqb (a b : option entry) : bool :=
-  match a, b with Some x, Some y => entry_eqb x y | None, None => true | _, _ => false end.
-
-Fixpoint olist_eqb (a b : list (option entry)) : bool :=
-  match a, b with
-  | [], [] => true
-  | x :: a', y :: b' => oentry_eqb x y && olist_eqb a' b'
-  | _, _ => false
-  end.
-
 Example ping_pong_deque_bounded :
   forallb (fun n => forallb (fun ri =>
     let items := mk_items n in
@@ -2050,6 +2051,270 @@ Example decode_all_back_ex :
           [1; 2; 3; 4; 7; 8; 16] = true.
 Proof. vm_compute. reflexivity. Qed.
 
+(** * P. Reverse iteration ([next_back] only) returns the items in reverse *)
+
+Fixpoint tail_offs (h : entry) (off : nat) (t : list entry) : list nat :=
+  match t with
+  | [] => []
+  | e :: t' => off :: tail_offs h (off + length (enc_tail h e)) t'
+  end.
+
+Lemma tail_offs_snoc h : forall t1 off e,
+  tail_offs h off (t1 ++ [e]) = tail_offs h off t1 ++ [(off + length (flat_map (enc_tail h) t1))%nat].
+Proof.
+  induction t1 as [|x t1 IH]; intros off e.
+  - cbn [app tail_offs flat_map length]. now rewrite Nat.add_0_r.
+  - cbn [app tail_offs flat_map]. rewrite IH, app_length. cbn [app]. do 3 f_equal. lia.
+Qed.
+
+Lemma fill_trunc_ok B h bko :
+  slice B bko (bko + length (ukey h)) = Some (ukey h) ->
+  forall t n off stack TL,
+  Forall item_wf t -> skipn off B = flat_map (enc_tail h) t ++ TL -> TL <> [] ->
+  (length t <= n)%nat -> (length t = n \/ exists r, TL = TRAILER_START_MARKER :: r) ->
+  fill_trunc n B bko off stack
+  = Some ((off + length (flat_map (enc_tail h) t))%nat, stack ++ tail_offs h off t).
+Proof.
+  intros HB. induction t as [|e t IH]; intros n off stack TL W H HTL Hn Hend.
+  - cbn [flat_map length tail_offs]. rewrite Nat.add_0_r, app_nil_r.
+    destruct n as [|n]; [reflexivity|]. cbn [fill_trunc].
+    destruct Hend as [Hend|[r ->]]; [cbn [length] in Hend; lia|].
+    cbn [flat_map app] in H. now rewrite (parse_truncated_end _ _ _ _ H).
+  - inversion W as [|? ? [We Te] Wt]; subst. cbn [length] in Hn.
+    destruct n as [|n]; [lia|]. cbn [fill_trunc].
+    cbn [flat_map] in H. rewrite <- app_assoc in H.
+    destruct (parse_truncated_ok B off bko (ukey h) e _ We Te H (app_nonnil_r _ _ HTL) HB)
+      as (p & P & _).
+    fold (enc_tail h e) in P. rewrite P. apply skipn_step in H.
+    rewrite (IH n _ (stack ++ [off]) TL Wt H HTL ltac:(lia)).
+    + cbn [flat_map tail_offs]. rewrite app_length, <- app_assoc. cbn [app].
+      f_equal. f_equal. lia.
+    + destruct Hend as [Hend|Hend]; [left; cbn [length] in Hend; lia|now right].
+Qed.
+
+Fixpoint bstream_ok (B : list N) (d : decoder) (st : dstate) (l : list entry) : Prop :=
+  match l with
+  | [] => exists st', dec_next_back B d st = Some (None, st')
+  | e :: l' =>
+      exists p st', dec_next_back B d st = Some (Some p, st') /\ item_ok B p e /\
+                    bstream_ok B d st' l'
+  end.
+
+Lemma dec_collect_back_stream B d : forall l st fuel,
+  bstream_ok B d st l -> (length l < fuel)%nat -> dec_collect_back fuel B d st = Some l.
+Proof.
+  induction l as [|e l IH]; intros st fuel St Fu; (destruct fuel as [|f]; [lia|]);
+    cbn [dec_collect_back].
+  - destruct St as [st' ->]. reflexivity.
+  - destruct St as (p & st' & -> & (M & _) & St). rewrite M.
+    rewrite (IH st' f St); [reflexivity|]. cbn [length] in Fu. lia.
+Qed.
+
+Lemma chunked_nth n : forall cs j, chunked n cs -> (j < length cs)%nat ->
+  length (nth j cs []) = n \/
+  (S j = length cs /\ nth j cs [] <> [] /\ (length (nth j cs []) <= n)%nat).
+Proof.
+  induction cs as [|c cs IH]; intros j C Hj; [cbn [length] in Hj; lia|].
+  cbn [chunked] in C. destruct cs as [|c' cs'].
+  - destruct j; [|cbn [length] in Hj; lia]. right. cbn [nth length]. destruct C. auto.
+  - destruct C as [C1 C2]. destruct j as [|j]; [left; exact C1|].
+    cbn [nth]. cbn [length] in Hj.
+    destruct (IH j C2 ltac:(cbn [length]; lia)) as [A|(A1 & A2 & A3)]; [now left|].
+    right. cbn [length] in *. repeat split; auto; lia.
+Qed.
+
+Lemma firstn_S_nth {A} (d : A) : forall (l : list A) j, (j < length l)%nat ->
+  firstn (S j) l = firstn j l ++ [nth j l d].
+Proof.
+  induction l as [|x l IH]; intros j Hj; [cbn [length] in Hj; lia|].
+  destruct j as [|j]; [reflexivity|]. cbn [firstn nth app]. f_equal. apply IH.
+  cbn [length] in Hj. lia.
+Qed.
+
+Section Back.
+Variables (cs : list (list entry)) (B : list N) (d : decoder) (r : bin_reader) (rest : list N).
+Let offs := offs_of 0 cs.
+Hypothesis EB : B = data_of cs ++ TRAILER_START_MARKER :: rest.
+Hypothesis Hri : (1 <= d_ri d)%nat.
+Hypothesis Hck : chunked (d_ri d) cs.
+Hypothesis Hwf : Forall (Forall item_wf) cs.
+Hypothesis G : get_binary_index_reader B d = Some r.
+Hypothesis Hget : forall j, (j < length cs)%nat -> bin_get r j = Some (nth j offs 0%nat).
+
+(** the hi scanner right after [fill_stack] of restart interval [j], with [m] of its
+    truncated items still on the stack *)
+Definition hi_filled (st : dstate) (j : nat) (h : entry) (t1 : list entry) (bko : nat) : Prop :=
+  lo_off st = 0%nat /\ hi_idx st = Some j /\ hi_base st = Some bko /\
+  hi_stack st = nth j offs 0%nat
+                :: tail_offs h (nth j offs 0 + length (encode_full h))%nat t1.
+
+Lemma chunk_at j h t : (j < length cs)%nat -> nth j cs [] = h :: t ->
+  exists TL, skipn (nth j offs 0%nat) B = encode_full h ++ flat_map (enc_tail h) t ++ TL /\
+    TL <> [] /\ (length t <= d_ri d - 1)%nat /\
+    (length t = (d_ri d - 1)%nat \/ exists r', TL = TRAILER_START_MARKER :: r').
+Proof.
+  intros Hj Ec. pose proof (restart_at cs B rest j EB Hj) as R.
+  rewrite (skipn_nth_cons [] cs j Hj), Ec in R.
+  unfold data_of in R. cbn [flat_map enc_chunk] in R. rewrite <- !app_assoc in R.
+  fold (data_of (skipn (S j) cs)) in R.
+  eexists. split; [exact R|]. split; [apply app_nonnil_r; discriminate|].
+  destruct (chunked_nth (d_ri d) cs j Hck Hj) as [A|(A1 & A2 & A3)]; rewrite Ec in *; cbn [length] in *.
+  - split; [lia|left; lia].
+  - split; [lia|]. right. rewrite skipn_all2 by lia. cbn [data_of flat_map app]. eauto.
+Qed.
+
+(** popping the stack of a filled interval: the truncated items, last first, then the head *)
+Lemma consume_filled_tail j h t bko t1 e t2 st :
+  (j < length cs)%nat -> nth j cs [] = h :: t ->
+  slice B bko (bko + length (ukey h)) = Some (ukey h) ->
+  t = (t1 ++ [e]) ++ t2 -> hi_filled st j h (t1 ++ [e]) bko ->
+  exists p st', consume_stack_top B st = Some (Some p, st') /\ item_ok B p e /\
+                hi_filled st' j h t1 bko.
+Proof.
+  intros Hj Ec HB Et (L0 & Hi & Hbk & Hs).
+  destruct (chunk_at j h t Hj Ec) as (TL & R & HTL & _ & _).
+  assert (Wc : Forall item_wf (h :: t)).
+  { rewrite <- Ec. rewrite Forall_forall in Hwf. apply Hwf. now apply nth_In. }
+  pose proof (Forall_inv_tail Wc) as Wt.
+  rewrite tail_offs_snoc in Hs.
+  set (o := (nth j offs 0 + length (encode_full h) + length (flat_map (enc_tail h) t1))%nat) in *.
+  assert (Re : skipn o B = enc_tail h e ++ (flat_map (enc_tail h) t2 ++ TL)).
+  { rewrite Et in R. rewrite <- app_assoc in R. cbn [app] in R.
+    rewrite flat_map_app in R. cbn [flat_map] in R. rewrite <- !app_assoc in R.
+    apply skipn_step in R. apply skipn_step in R. exact R. }
+  assert (We : item_wf e).
+  { rewrite Forall_forall in Wt. apply Wt. rewrite Et. apply in_or_app. left.
+    apply in_or_app. right. now left. }
+  destruct We as [We Te].
+  destruct (parse_truncated_ok B o bko (ukey h) e _ We Te Re (app_nonnil_r _ _ HTL) HB)
+    as (p & P & OK).
+  eexists p, _. split; [|split; [exact OK|]].
+  - unfold consume_stack_top. rewrite Hs.
+    rewrite app_comm_cons, rev_app_distr. cbn [rev app].
+    rewrite L0. cbn [Nat.ltb Nat.leb andb]. rewrite rev_app_distr, rev_involutive. cbn [rev app].
+    unfold parse_current_item. rewrite Hbk. rewrite P. reflexivity.
+  - unfold hi_filled. cbn [lo_off hi_idx hi_base hi_stack]. repeat split; auto.
+Qed.
+
+Lemma consume_filled_head j h t bko st :
+  (j < length cs)%nat -> nth j cs [] = h :: t -> hi_filled st j h [] bko ->
+  exists p st', consume_stack_top B st = Some (Some p, st') /\ item_ok B p h /\
+                lo_off st' = 0%nat /\ hi_idx st' = Some j /\ hi_stack st' = [].
+Proof.
+  intros Hj Ec (L0 & Hi & Hbk & Hs).
+  destruct (chunk_at j h t Hj Ec) as (TL & R & HTL & _ & _).
+  assert (Wc : Forall item_wf (h :: t)).
+  { rewrite <- Ec. rewrite Forall_forall in Hwf. apply Hwf. now apply nth_In. }
+  pose proof (Forall_inv Wc) as [Wh Th].
+  cbn [tail_offs] in Hs.
+  destruct (parse_full_ok B _ h _ Wh Th R (app_nonnil_r _ _ HTL)) as (p & P & OK & _).
+  eexists p, _. split; [|split; [exact OK|]].
+  - unfold consume_stack_top. rewrite Hs. cbn [rev app].
+    rewrite L0. cbn [Nat.ltb Nat.leb andb]. unfold parse_current_item. rewrite P. reflexivity.
+  - cbn [lo_off hi_idx hi_stack]. auto.
+Qed.
+
+Lemma dec_next_back_consume st p st' :
+  consume_stack_top B st = Some (Some p, st') -> dec_next_back B d st = Some (Some p, st').
+Proof. intros H. unfold dec_next_back. now rewrite H. Qed.
+
+Lemma bstream_filled j h t bko l' :
+  (j < length cs)%nat -> nth j cs [] = h :: t ->
+  slice B bko (bko + length (ukey h)) = Some (ukey h) ->
+  (forall st', lo_off st' = 0%nat -> hi_idx st' = Some j -> hi_stack st' = [] ->
+               bstream_ok B d st' l') ->
+  forall t1 t2 st, t = t1 ++ t2 -> hi_filled st j h t1 bko ->
+  bstream_ok B d st (rev t1 ++ h :: l').
+Proof.
+  intros Hj Ec HB K.
+  induction t1 as [|e t1 IH] using rev_ind; intros t2 st Et HF.
+  - cbn [rev app bstream_ok].
+    destruct (consume_filled_head j h t bko st Hj Ec HF) as (p & st' & C & OK & A1 & A2 & A3).
+    exists p, st'. split; [now apply dec_next_back_consume|]. split; [exact OK|]. now apply K.
+  - rewrite rev_app_distr. cbn [rev app bstream_ok].
+    destruct (consume_filled_tail j h t bko t1 e t2 st Hj Ec HB Et HF) as (p & st' & C & OK & HF').
+    exists p, st'. split; [now apply dec_next_back_consume|]. split; [exact OK|].
+    apply (IH ([e] ++ t2)); [|exact HF']. rewrite Et, <- app_assoc. reflexivity.
+Qed.
+
+(** from an empty stack with [hi_idx = j]: the first [j] restart intervals, backwards *)
+Lemma bstream_from : forall j st, (j <= length cs)%nat ->
+  lo_off st = 0%nat -> hi_idx st = Some j -> hi_stack st = [] ->
+  bstream_ok B d st (rev (concat (firstn j cs))).
+Proof.
+  induction j as [|j IH]; intros st Hj L0 Hi Hs.
+  - cbn [firstn concat rev bstream_ok]. unfold dec_next_back, consume_stack_top.
+    rewrite Hs. cbn [rev]. rewrite Hi. eexists. reflexivity.
+  - assert (Hj' : (j < length cs)%nat) by lia.
+    assert (Hin : In (nth j cs []) cs) by (now apply nth_In).
+    pose proof (chunked_nonempty (d_ri d) Hri cs _ Hck Hin) as Hne.
+    destruct (nth j cs []) as [|h t] eqn:Ec; [congruence|].
+    assert (E : concat (firstn (S j) cs) = concat (firstn j cs) ++ (h :: t)).
+    { rewrite (firstn_S_nth [] cs j Hj'), concat_app, Ec. cbn [concat]. now rewrite app_nil_r. }
+    rewrite E, rev_app_distr. cbn [rev]. rewrite <- app_assoc. cbn [app].
+    destruct (chunk_at j h t Hj' Ec) as (TL & R & HTL & Hlen & Hend).
+    assert (Wc : Forall item_wf (h :: t)).
+    { rewrite Forall_forall in Hwf. apply Hwf. exact Hin. }
+    pose proof (Forall_inv Wc) as [Wh Th]. pose proof (Forall_inv_tail Wc) as Wt.
+    destruct (parse_full_ok B _ h _ Wh Th R (app_nonnil_r _ _ HTL)) as (p & P & _ & HK).
+    (* the state after [fill_stack] *)
+    set (st2 := mkD (lo_off st) (lo_rem st) (lo_base st) (hi_off st) (Some j) (hi_stack st) (hi_base st)).
+    assert (FS : exists st3, fill_stack B d st2 = Some st3 /\ hi_filled st3 j h t (fst (p_key p))).
+    { unfold fill_stack. cbn [hi_idx st2]. rewrite G, (Hget j Hj'), P.
+      pose proof R as R'. apply skipn_step in R'.
+      rewrite (fill_trunc_ok B h _ HK t (d_ri d - 1) _ _ TL Wt R' HTL Hlen Hend).
+      eexists. split; [reflexivity|]. unfold hi_filled. cbn [lo_off hi_idx hi_base hi_stack st2].
+      rewrite Hs. repeat split; auto. }
+    destruct FS as (st3 & FS & HF).
+    assert (K : forall st', lo_off st' = 0%nat -> hi_idx st' = Some j -> hi_stack st' = [] ->
+                bstream_ok B d st' (rev (concat (firstn j cs)))).
+    { intros st' A1 A2 A3. apply IH; auto. lia. }
+    (* the first call refills and pops in one go: [dec_next_back st = consume_stack_top st3] *)
+    assert (X : dec_next_back B d st = consume_stack_top B st3).
+    { unfold dec_next_back at 1. unfold consume_stack_top at 1. rewrite Hs. cbn [rev].
+      rewrite Hi. fold st2. now rewrite FS. }
+    destruct t as [|e0 t0] using rev_ind.
+    + cbn [rev app bstream_ok].
+      destruct (consume_filled_head j h [] _ st3 Hj' Ec HF) as (p1 & st' & C & OK & A1 & A2 & A3).
+      exists p1, st'. split; [now rewrite X|]. split; [exact OK|]. now apply K.
+    + clear IHt0. rewrite rev_app_distr. cbn [rev app bstream_ok].
+      destruct (consume_filled_tail j h (t0 ++ [e0]) _ t0 e0 [] st3 Hj' Ec HK
+                  ltac:(now rewrite app_nil_r) HF) as (p1 & st' & C & OK & HF').
+      exists p1, st'. split; [now rewrite X|]. split; [exact OK|].
+      apply (bstream_filled j h (t0 ++ [e0]) (fst (p_key p)) _ Hj' Ec HK K t0 [e0] st' eq_refl HF').
+Qed.
+
+End Back.
+
+Theorem datablock_roundtrip_back hash ri nb items :
+  items <> [] -> items_wf items -> 1 <= ri <= 255 ->
+  block_small (encode_block hash ri nb items) ->
+  decode_all_back (encode_block hash ri nb items) = Some (rev items).
+Proof.
+  intros Hne W Hri Hs.
+  pose proof (encode_block_facts hash ri nb items ltac:(lia) ltac:(lia) Hne Hs) as F.
+  set (B := encode_block hash ri nb items) in *.
+  pose proof (reader_facts hash ri nb _ B F) as RF. cbv zeta in RF.
+  destruct RF as (d & st & r & rest & Dn & Dri & O & R & Hb & EB & G & L & Hget).
+  assert (Hcat : concat (cs_of ri items) = items) by (apply cs_of_concat; lia).
+  unfold decode_all_back. rewrite Dn.
+  assert (Hst : hi_idx st = Some (length (cs_of ri items)) /\ hi_stack st = []).
+  { unfold decoder_new in Dn. destruct (read_trailer B) as [t|] eqn:T; [|discriminate].
+    inversion Dn; subst. cbn [hi_idx hi_stack t_binlen].
+    destruct F as (step & HI & TR & hlen & hoff & F1 & LTR & F2 & _). cbv zeta in F2.
+    rewrite F2 in T. inversion T; subst. cbn [t_binlen]. rewrite Nat2N.id. split; reflexivity. }
+  destruct Hst as [Hi Hstk].
+  apply dec_collect_back_stream.
+  - rewrite <- Hcat at 1. rewrite <- (firstn_all (cs_of ri items)) at 1.
+    apply bstream_from with (r := r) (rest := rest); auto.
+    + rewrite Dri. lia.
+    + rewrite Dri. apply chunks_of_chunked; lia.
+    + apply chunks_of_wf. exact W.
+  - rewrite rev_length.
+    pose proof (concat_le_data (cs_of ri items)) as LD. rewrite Hcat in LD.
+    assert (LB := f_equal (@length N) EB). rewrite app_length in LB. lia.
+Qed.
+
 Print Assumptions compare_prefixed_slice_spec.
 Print Assumptions longest_shared_prefix_length_spec.
 Print Assumptions encode_bytes_wf.
@@ -2057,3 +2322,4 @@ Print Assumptions datablock_roundtrip.
 Print Assumptions datablock_point_read.
 Print Assumptions datablock_roundtrip_tomb_value_refuted.
 Print Assumptions header_roundtrip.
+Print Assumptions datablock_roundtrip_back.
